@@ -402,9 +402,10 @@ func toCSVCase(c *Case) *Case {
 		lc := &Case{Cmd: "updownlist", Files: map[string]string{"ref": c.Files["ref"], "query": c.Files[f]}}
 		rc := P0()
 		rc.Explicit = true
+		saveTap := tapEnabled
 		tapEnabled = false
 		res := Exec(lc, &rc)
-		tapEnabled = true
+		tapEnabled = saveTap
 		if res.Out.Kind != simrt.Returned || res.Err != nil {
 			return nil
 		}
